@@ -797,7 +797,13 @@ impl<K: KeyT, V: ValT> World<K, V> {
                     acc.out.res = "probe skipped (one possible element)".to_string();
                     return;
                 }
-                let n = (cap - len).min(*max as usize);
+                let mode_cap = match slot.s.hasher().mode {
+                    crate::hasher::HashMode::Good | crate::hasher::HashMode::SameH2 => 5000,
+                    crate::hasher::HashMode::Clustered => 800,
+                    crate::hasher::HashMode::LowEntropy => 300,
+                    crate::hasher::HashMode::AllCollide => 150,
+                };
+                let n = (cap - len).min(*max as usize).min(mode_cap);
                 let mut last_cap = cap;
                 let mut inserted = 0usize;
                 for _ in 0..n {
